@@ -70,5 +70,19 @@ impl<T> ArcSwap<T> {
 }
 // opaque synchronisation types that only appear as struct fields
 #[verifier::external_body] pub struct AtomicU8 { _p: u8 }
+pub enum Ordering { Relaxed, Release, Acquire, AcqRel, SeqCst }
 #[verifier::external_body] pub struct AtomicBool { _p: u8 }
+impl AtomicBool {
+    pub uninterp spec fn cur(&self) -> bool;                  // the value a load observes (sequential model)
+    pub uninterp spec fn may_store(&self, v: bool) -> bool;
+    #[verifier::external_body] pub fn load(&self, o: Ordering) -> (r: bool) ensures r == self.cur() { unimplemented!() }
+    #[verifier::external_body] pub fn store(&self, v: bool, o: Ordering) requires self.may_store(v), // [store]
+    { unimplemented!() }
+}
 #[verifier::external_body] #[verifier::reject_recursive_types(T)] pub struct Mutex<T> { _p: PhantomData<T> }
+#[verifier::external_body] #[verifier::reject_recursive_types(T)] pub struct MutexGuard<T> { _p: PhantomData<T> }
+#[verifier::external_body] #[derive(Debug)] pub struct PoisonError { _p: u8 }
+impl<T> Mutex<T> {
+    // "Do not expect poisoned lock here" (comment in the code): assumed
+    #[verifier::external_body] pub fn lock(&self) -> (r: core::result::Result<MutexGuard<T>, PoisonError>) ensures r is Ok { unimplemented!() }
+}
